@@ -747,3 +747,13 @@ M('schur-householder-right-column-pointer', 'C13', 'pointer-kernel-contracts',
         Scalar* x1 = x + stride;
         Scalar* x2 = x1 + stride + stride;
         for (Index i = 0; i < nrow; i++)''')], 'fourth column of a three-column window')
+M('schur-simd-peeling-end-rounded-to-packet', 'C13', 'pointer-kernel-contracts',
+  [(S_, 'const Index peeling_end = nrow - (nrow & (Increment - 1));', 'const Index peeling_end = nrow - (nrow & (PacketSize - 1));')], 'the peeled loop moves two packets per step but its bound is only a multiple of one packet')
+M('schur-simd-remainder-packet-unconditional', 'C13', 'pointer-kernel-contracts',
+  [(S_, 'if (aligned_end != peeling_end)\n', 'if (aligned_end >= peeling_end)\n')], 'loads a packet at peeling_end even when fewer than PacketSize rows remain')
+M('schur-simd-row-pointer-step', 'C13', 'pointer-kernel-contracts',
+  [(S_, '''            px0 += Increment;
+            px1 += Increment;''', '''            px0 += Increment + 1;
+            px1 += Increment;''')])
+N('schur-simd-mask-rewritten', 'C13',
+  [(S_, 'const Index aligned_end = nrow - (nrow & (PacketSize - 1));', 'const Index aligned_end = nrow - (nrow & (Peeling * PacketSize / 2 - 1));')], 'same mask')
